@@ -2,10 +2,12 @@ module sioverif/harness
 
 go 1.22
 
-require github.com/karagenc/socket.io-go v0.0.0
+require (
+	github.com/deckarep/golang-set/v2 v2.6.0
+	github.com/karagenc/socket.io-go v0.0.0
+)
 
 require (
-	github.com/deckarep/golang-set/v2 v2.6.0 // indirect
 	github.com/fatih/color v1.17.0 // indirect
 	github.com/fatih/structs v1.1.0 // indirect
 	github.com/karagenc/yeast v0.1.1 // indirect
